@@ -377,7 +377,7 @@ def replay(ctx, case):
 PARTS = {"generated": part_generated, "big": part_big}
 REPLAY = {"generated": replay, "big": replay}
 KNOWN = {}
-FLOORS = {"nontrivial": ("", 0.3), "chunk boundary inside a header": ("kind socket", 0.1),
+FLOORS = {"nontrivial": ("", 0.2), "chunk boundary inside a header": ("kind socket", 0.1),
           "chunk boundary on a packet boundary": ("kind socket", 0.1)}
 
 
